@@ -223,3 +223,5 @@ pub assume_specification<'a, P: std::str::pattern::Pattern>[ str::trim_start_mat
     ensures trim_start_ens::<P>(s@, p, r@);
 pub broadcast axiom fn axiom_trim_start_char(s: Seq<char>, c: char, r: Seq<char>)
     requires #[trigger] trim_start_ens::<char>(s, c, r), ensures r == strip_leading(s, c);
+pub broadcast axiom fn axiom_to_string_string(x: &String, r: String)
+    requires #[trigger] vstd::string::to_string_from_display_ensures::<String>(x, r), ensures r == *x;
